@@ -176,7 +176,7 @@ func (w *world) input(q query) string {
 	return string(b)
 }
 
-var devNames = []string{"pad-counts-bytes", "zero-renders-empty", "sign-lost-on-fallback", "extends-unknown-style", "several-known-deviations"}
+var devNames = []string{"extends-unknown-style"}
 
 // classify names the deviation from the specification: the model driver evaluates the specification
 // with each known deviation switched on; the class is the (first) one that reproduces the
@@ -202,13 +202,6 @@ func (w *world) classify(m *mp.Model, q query, impl string) (string, error) {
 	for n, d := range w.cs {
 		if d.System.Extends != "" && d.System.System == n {
 			return "extends-self-loop", nil // a style extending a self-extending style loses that style's descriptors
-		}
-	}
-	if q.value < 0 { // the whole fallback chain continued with |value|
-		q2 := q
-		q2.value = -q.value
-		if s2, p2 := q2.run(w.cs); p2 == "" && s2 == impl {
-			return "sign-lost-on-fallback", nil
 		}
 	}
 	if w.extendsTargetVisited(q.styleName()) {
@@ -349,7 +342,7 @@ func Run(tier string, seed uint64, modelPath, repo string, out *res.Result) erro
 		lo, hi, nAuthor, nDocs = -3000, 12000, 40000, 20000
 	}
 	out.Rule = fmt.Sprintf("L1a: every predefined style x every integer in [%d, %d] x {RenderValue, RenderMarker} (exhaustive); "+
-		"L1b: %d random author stylesheets (1-4 @counter-style rules: all systems, symbols incl. multi-byte, additive weights incl. 0, ranges incl. infinite, pad, negative, prefix/suffix, extends/fallback graphs incl. self, cycles, unknown and predefined names) parsed by the real stylesheet pipeline, each x ~40 integers (-14..30, random +-400, +-2^31 edge) x {RenderValue, RenderMarker, RenderValueStyle incl. symbols() and <string>}; "+
+		"L1b: %d random author stylesheets (1-4 @counter-style rules: all systems, symbols incl. multi-byte, additive weights incl. 0, ranges incl. infinite, pad, negative, prefix/suffix, extends/fallback graphs incl. self, cycles, unknown and predefined names) parsed by the real stylesheet pipeline, each x ~40 integers (-14..30, random +-400, and +-2^31, +-2^40, +-2^62 where the output stays short) x {RenderValue, RenderMarker, RenderValueStyle incl. symbols() and <string>}; "+
 		"L2: %d generated documents (nested div/ol/ul/li/span, counter-reset/set/increment on random elements and ::before/::after, display:none, ol start) built by boxes.BuildFormattingStructure; "+
 		"non-trivial = author style, or predefined with value <= 0 or > 9, or a document with >= 2 counter declarations; distinct by (stylesheet, style, value, api) / document text", lo, hi, nAuthor, nDocs)
 
@@ -362,6 +355,9 @@ func Run(tier string, seed uint64, modelPath, repo string, out *res.Result) erro
 	if len(chk.Xs) < 2 || chk.Xs[1].S != "1" {
 		add(out, res.Finding{Kind: "corr", Op: "corr:counters:predefined-table", Input: "tree.UACounterStyle", Model: chk.String(),
 			Reason: "WR/Gen/C19Styles.lean differs from the table the running code parsed"})
+	}
+	if err := runCorpus(m, out); err != nil {
+		return err
 	}
 	only := os.Getenv("WRH_C19_ONLY") // development aid: run one part only
 	rA, rS := r.Sub(), r.Sub()
@@ -407,7 +403,7 @@ func runPredefined(m *mp.Model, ua *world, lo, hi int, out *res.Result) error {
 	return nil
 }
 
-var edgeValues = []int{2147483647, -2147483648, 2147483646, 100000, -99999, 1 << 20}
+var edgeValues = []int{2147483647, -2147483648, 2147483648, -2147483649, 100000, -99999, 1 << 40, -(1 << 40), 1 << 62, -(1 << 62)}
 
 func runAuthor(m *mp.Model, r *rng.R, n int, out *res.Result) error {
 	for i := 0; i < n; i++ {
